@@ -9,19 +9,31 @@ Ltac Zify.zify_post_hook ::= Z.div_mod_to_equations.
 (* ------------------------------------------------------------------ *)
 (** * Finite sweeps and bit facts *)
 
-Lemma sweep (N : Z) (p : Z -> bool) :
-  forallb p (map Z.of_nat (seq 0 (Z.to_nat N))) = true ->
-  forall x, 0 <= x < N -> p x = true.
+Fixpoint all_from (n : nat) (x : Z) (p : Z -> bool) : bool :=
+  match n with
+  | O => true
+  | S n' => p x && all_from n' (x + 1) p
+  end.
+
+Lemma all_from_spec n : forall x p, all_from n x p = true ->
+  forall y, x <= y < x + Z.of_nat n -> p y = true.
 Proof.
-  intros H x Hx. rewrite forallb_forall in H. apply H.
-  rewrite <- (Z2Nat.id x) by lia. apply in_map. apply in_seq. lia.
+  induction n as [|n IH]; intros x p H y Hy; [lia|].
+  cbn [all_from] in H. apply andb_prop in H. destruct H as [Hx Hr].
+  destruct (Z.eq_dec y x) as [->|Hne]; [exact Hx|].
+  apply (IH (x + 1) p Hr). lia.
 Qed.
+
+Lemma sweep (N : Z) (p : Z -> bool) :
+  all_from (Z.to_nat N) 0 p = true ->
+  forall x, 0 <= x < N -> p x = true.
+Proof. intros H x Hx. apply (all_from_spec _ _ _ H). lia. Qed.
 
 Lemma land128_byte x : 0 <= x < 256 -> (Z.land x 128 =? 0) = (x <? 128).
 Proof.
   intros Hx. apply Bool.eqb_prop.
   apply (sweep 256 (fun x => Bool.eqb (Z.land x 128 =? 0) (x <? 128))); [|exact Hx].
-  vm_compute; reflexivity.
+  vm_cast_no_check (eq_refl true).
 Qed.
 
 Lemma land127 x : Z.land x 127 = x mod 128.
@@ -125,7 +137,7 @@ Lemma rgb565_roundtrip : forall c, 0 <= c < 65536 -> encode_rgb565 (decode_rgb56
 Proof.
   intros c Hc. apply Z.eqb_eq.
   apply (sweep 65536 (fun c => encode_rgb565 (decode_rgb565 c) =? c)); [|exact Hc].
-  vm_compute; reflexivity.
+  vm_cast_no_check (eq_refl true).
 Qed.
 
 (* the encoder applied to already-reduced fields R (5 bits), G (6), B (5),
@@ -142,7 +154,7 @@ Proof.
                rgb_eqb (decode_rgb565 (pack565 R G B)) (mkrgb (8 * R) (4 * G) (8 * B))) = true).
   { apply (sweep 65536 (fun c => let R := c / 2048 in let G := (c / 32) mod 64 in let B := c mod 32 in
                rgb_eqb (decode_rgb565 (pack565 R G B)) (mkrgb (8 * R) (4 * G) (8 * B)))); [|exact Hc].
-    vm_compute; reflexivity. }
+    vm_cast_no_check (eq_refl true). }
   cbv zeta in *. unfold rgb_eqb in H.
   apply andb_prop in H. destruct H as [H Hb]. apply andb_prop in H. destruct H as [Hr Hg].
   apply Z.eqb_eq in Hr, Hg, Hb.
@@ -169,3 +181,246 @@ Proof.
   replace ((2048 * (r / 8) + 32 * (g / 4) + b / 8) mod 32) with (b / 8) in H by lia.
   exact H.
 Qed.
+
+(* ------------------------------------------------------------------ *)
+(** * Variable-length unsigned integers: reads stay below [n] *)
+
+Lemma nth_error_firstn_lt : forall n (l : list Z) i,
+  (i < n)%nat -> nth_error (firstn n l) i = nth_error l i.
+Proof.
+  induction n as [|n IH]; intros [|h t] [|i] H; cbn; auto; try lia.
+  apply IH. lia.
+Qed.
+
+Lemma rd_firstn_eq b b' n off :
+  firstn n b = firstn n b' -> (off < n)%nat -> rd b off = rd b' off.
+Proof.
+  intros H Hlt. unfold rd.
+  rewrite <- (nth_error_firstn_lt n b off Hlt), <- (nth_error_firstn_lt n b' off Hlt), H.
+  reflexivity.
+Qed.
+
+Lemma vu_drain_firstn b b' n : firstn n b = firstn n b' ->
+  forall fuel off byte, vu_drain fuel b n off byte = vu_drain fuel b' n off byte.
+Proof.
+  intros H. induction fuel as [|f IH]; intros off byte; cbn [vu_drain];
+    destruct (Z.land byte 128 =? 0); auto;
+    destruct (Nat.leb_spec n off); auto.
+  rewrite (rd_firstn_eq b b' n off H) by lia.
+  destruct (rd b' off); auto.
+Qed.
+
+Lemma vu_loop_firstn b b' n : firstn n b = firstn n b' ->
+  forall fuel off value nb bl,
+  vu_loop fuel b n off value nb bl = vu_loop fuel b' n off value nb bl.
+Proof.
+  intros H. induction fuel as [|f IH]; intros off value nb bl; cbn [vu_loop]; auto.
+  destruct (Nat.leb_spec n off); auto.
+  rewrite (rd_firstn_eq b b' n off H) by lia.
+  destruct (rd b' off) as [byte|]; auto.
+  rewrite !(vu_drain_firstn b b' n H). rewrite IH. reflexivity.
+Qed.
+
+Lemma varuint_reads_below_n : forall b b' n off,
+  firstn n b = firstn n b' ->
+  parse_varuint32 b n off = parse_varuint32 b' n off.
+Proof. intros. unfold parse_varuint32. apply vu_loop_firstn. assumption. Qed.
+
+(* ------------------------------------------------------------------ *)
+(** * Never out of bounds (no well-formedness needed) *)
+
+Lemma rd_some b off : (off < length b)%nat -> exists x, rd b off = Some x.
+Proof.
+  intros H. unfold rd. destruct (nth_error b off) eqn:E; eauto.
+  apply nth_error_None in E. lia.
+Qed.
+
+Lemma vu_drain_no_oob b n : (n <= length b)%nat ->
+  forall fuel off byte o, (n < fuel + off)%nat ->
+  vu_drain fuel b n off byte <> VuOOB o.
+Proof.
+  intros Hn. induction fuel as [|f IH]; intros off byte o Hf; cbn [vu_drain];
+    destruct (Z.land byte 128 =? 0); try discriminate;
+    destruct (Nat.leb_spec n off); try discriminate; try lia.
+  destruct (rd_some b off ltac:(lia)) as [x ->]. apply IH. lia.
+Qed.
+
+Lemma vu_loop_no_oob b n : (n <= length b)%nat ->
+  forall fuel off value k o, 0 <= k <= 4 -> 5 <= Z.of_nat fuel + k ->
+  vu_loop fuel b n off value (7 * k) (32 - 7 * k) <> VuOOB o.
+Proof.
+  intros Hn. induction fuel as [|f IH]; intros off value k o Hk Hf; [lia|].
+  cbn [vu_loop].
+  destruct (Nat.leb_spec n off); try discriminate.
+  destruct (rd_some b off ltac:(lia)) as [x ->].
+  destruct (_ && _).
+  { apply vu_drain_no_oob; auto. lia. }
+  destruct (Z.land x 128 =? 0); try discriminate.
+  destruct (Z.ltb_spec 31 (7 * k + 7)).
+  { apply vu_drain_no_oob; auto. lia. }
+  replace (7 * k + 7) with (7 * (k + 1)) by ring.
+  replace (32 - 7 * k - 7) with (32 - 7 * (k + 1)) by ring.
+  apply IH; lia.
+Qed.
+
+Lemma varuint_never_oob : forall b n off,
+  (n <= length b)%nat ->
+  forall o, parse_varuint32 b n off <> VuOOB o.
+Proof.
+  intros b n off Hn o. unfold parse_varuint32.
+  apply (vu_loop_no_oob b n Hn 6 off 0 0 o); lia.
+Qed.
+
+(* ------------------------------------------------------------------ *)
+(** * The decoder computes the declarative reading *)
+
+Lemma skipn_nth_cons : forall off (b : list Z) x,
+  nth_error b off = Some x -> skipn off b = x :: skipn (S off) b.
+Proof.
+  induction off as [|off IH]; intros [|h t] x H; cbn in H; try discriminate.
+  - injection H as ->. reflexivity.
+  - cbn [skipn]. rewrite (IH t x H). reflexivity.
+Qed.
+
+Lemma window_cons (b : list Z) n off x : (off < n)%nat -> rd b off = Some x ->
+  firstn (n - off) (skipn off b) = x :: firstn (n - S off) (skipn (S off) b).
+Proof.
+  intros Hlt Hx. rewrite (skipn_nth_cons off b x Hx).
+  replace (n - off)%nat with (S (n - S off)) by lia. reflexivity.
+Qed.
+
+Lemma window_nil (b : list Z) n off : (n <= off)%nat -> firstn (n - off) (skipn off b) = [].
+Proof. intros H. replace (n - off)%nat with 0%nat by lia. reflexivity. Qed.
+
+Lemma rd_wf b off x : wf_bytes b = true -> rd b off = Some x -> 0 <= x < 256.
+Proof.
+  intros Hwf Hx. apply wf_bytes_forall in Hwf. rewrite Forall_forall in Hwf.
+  apply Hwf. eapply nth_error_In. exact Hx.
+Qed.
+
+Lemma vu_drain_spec b n : wf_bytes b = true -> (n <= length b)%nat ->
+  forall fuel off byte, 0 <= byte < 256 -> (off <= n)%nat -> (n < fuel + off)%nat ->
+  vu_drain fuel b n off byte =
+  if byte <? 128 then VuErr SB_EOVERFLOW off
+  else match take_enc (firstn (n - off) (skipn off b)) with
+       | None => VuErr SB_EPARSE n
+       | Some e => VuErr SB_EOVERFLOW (off + length e)
+       end.
+Proof.
+  intros Hwf Hn. induction fuel as [|f IH]; intros off byte Hb Ho Hf; [lia|].
+  cbn [vu_drain]. rewrite (land128_byte byte Hb).
+  destruct (byte <? 128); auto.
+  destruct (Nat.leb_spec n off).
+  - rewrite window_nil by lia. cbn [take_enc]. f_equal. lia.
+  - destruct (rd_some b off ltac:(lia)) as [x Hx]. rewrite Hx.
+    rewrite (window_cons b n off x) by (auto; lia). cbn [take_enc].
+    rewrite IH by (eauto using rd_wf; lia).
+    destruct (x <? 128).
+    + cbn [length]. f_equal. lia.
+    + destruct (take_enc _); auto. cbn [length]. f_equal. lia.
+Qed.
+
+Ltac normk k :=
+  let a := eval vm_compute in (32 - 7 * k) in
+  let p := eval vm_compute in (2 ^ (7 * k)) in
+  let q := eval vm_compute in (2 ^ (32 - 7 * k)) in
+  let c := eval vm_compute in (7 * k) in
+  let d := eval vm_compute in (7 * k + 7) in
+  let e := eval vm_compute in (32 - 7 * k - 7) in
+  change (2 ^ (32 - 7 * k)) with q in *;
+  change (2 ^ (7 * k)) with p in *;
+  change (32 - 7 * k - 7) with e in *;
+  change (7 * k + 7) with d in *;
+  change (32 - 7 * k) with a in *;
+  change (7 * k) with c in *.
+
+
+Ltac fin_if :=
+  repeat match goal with
+  | |- context [Z.leb ?a ?b] => destruct (Z.leb_spec a b)
+  | |- context [Z.ltb ?a ?b] => destruct (Z.ltb_spec a b)
+  end; cbn [andb]; try (exfalso; lia); f_equal; lia.
+
+Ltac step_low k kk x off IH :=
+  normk k;
+  let value' := fresh "value'" in
+  match goal with |- context [vu_loop _ _ _ _ ?v _ _] => set (value' := v) end;
+  match goal with |- context [?a <? 7] => destruct (Z.ltb_spec a 7); [exfalso; lia|] end;
+  cbn [andb];
+  match goal with |- context [31 <? ?d] => destruct (Z.ltb_spec 31 d); [exfalso; lia|] end;
+  destruct (Z.ltb_spec x 128);
+  [ cbn [length value_of]; subst value'; fin_if
+  | let Hb := fresh "Hb" in
+    assert (Hb : 0 <= value' < 2 ^ (7 * kk))
+      by (let p := eval vm_compute in (2 ^ (7 * kk)) in change (2 ^ (7 * kk)) with p;
+          subst value'; lia);
+    match goal with |- context [vu_loop ?f ?b ?n ?o value' ?a ?c] =>
+      change (vu_loop f b n o value' a c) with (vu_loop f b n o value' (7 * kk) (32 - 7 * kk)) end;
+    rewrite (IH (S off) kk value' ltac:(lia) ltac:(lia) Hb);
+    normk kk;
+    destruct (take_enc _) as [e|]; [| f_equal; lia];
+    cbn [length value_of];
+    generalize dependent (value_of e); intros V;
+    subst value'; fin_if ].
+
+Lemma take_enc_nonempty : forall s e, take_enc s = Some e -> (1 <= length e)%nat.
+Proof.
+  intros [|x t] e H; cbn [take_enc] in H; [discriminate|].
+  destruct (x <? 128); [injection H as <-; cbn; lia|].
+  destruct (take_enc t); [injection H as <-; cbn; lia|discriminate].
+Qed.
+
+Lemma vu_loop_spec b n : wf_bytes b = true -> (n <= length b)%nat ->
+  forall fuel off k value, 0 <= k <= 4 -> 5 <= Z.of_nat fuel + k ->
+  0 <= value < 2 ^ (7 * k) ->
+  vu_loop fuel b n off value (7 * k) (32 - 7 * k) =
+  match take_enc (firstn (n - off) (skipn off b)) with
+  | None => VuErr SB_EPARSE (Nat.max off n)
+  | Some e =>
+    if (Z.of_nat (length e) + k <=? 5) && (value + 2 ^ (7 * k) * value_of e <? 4294967296)
+    then VuOk (value + 2 ^ (7 * k) * value_of e) (off + length e)
+    else VuErr SB_EOVERFLOW (off + length e)
+  end.
+Proof.
+  intros Hwf Hn. induction fuel as [|f IH]; intros off k value Hk Hf Hv; [lia|].
+  cbn [vu_loop].
+  destruct (Nat.leb_spec n off).
+  { rewrite window_nil by lia. cbn [take_enc]. f_equal. lia. }
+  destruct (rd_some b off ltac:(lia)) as [x Hx]. rewrite Hx.
+  pose proof (rd_wf b off x Hwf Hx) as Hxb.
+  rewrite (window_cons b n off x) by (auto; lia). cbn [take_enc].
+  rewrite (land128_byte x Hxb), land127.
+  rewrite Z.shiftr_div_pow2, Z.shiftl_mul_pow2 by lia.
+  rewrite (vu_drain_spec b n Hwf Hn n (S off) x Hxb) by lia.
+  assert (Hk' : k = 0 \/ k = 1 \/ k = 2 \/ k = 3 \/ k = 4) by lia.
+  destruct Hk' as [-> | [-> | [-> | [-> | ->]]]].
+  - step_low 0 1 x off IH.
+  - step_low 1 2 x off IH.
+  - step_low 2 3 x off IH.
+  - step_low 3 4 x off IH.
+  - normk 4. change (4 <? 7) with true. change (31 <? 35) with true. cbn [andb].
+    destruct (Z.ltb_spec x 128).
+    + cbn [length value_of]. fin_if.
+    + destruct (take_enc _) as [e|] eqn:E; cbn [length value_of]; [|fin_if].
+      pose proof (take_enc_nonempty _ _ E). fin_if.
+Qed.
+
+Lemma varuint_spec_holds : forall b n off,
+  wf_bytes b = true -> (n <= length b)%nat ->
+  parse_varuint32 b n off = varuint_spec b n off.
+Proof.
+  intros b n off Hwf Hn. unfold parse_varuint32, varuint_spec. cbv zeta.
+  change (vu_loop 6 b n off 0 0 32) with (vu_loop 6 b n off 0 (7 * 0) (32 - 7 * 0)).
+  rewrite (vu_loop_spec b n Hwf Hn 6 off 0 0) by (change (2 ^ (7 * 0)) with 1; lia).
+  change (2 ^ (7 * 0)) with 1.
+  destruct (take_enc _) as [e|]; [|reflexivity].
+  replace (0 + 1 * value_of e) with (value_of e) by lia.
+  replace (Z.of_nat (length e) + 0 <=? 5) with (length e <=? 5)%nat; [reflexivity|].
+  destruct (Nat.leb_spec (length e) 5); destruct (Z.leb_spec (Z.of_nat (length e) + 0) 5); auto; lia.
+Qed.
+
+Lemma varuint_examples :
+  parse_varuint32 [255; 255; 255; 255; 15; 7] 6 0 = VuOk 4294967295 5 /\
+  parse_varuint32 [128; 128; 128; 128; 128; 0; 9] 7 0 = VuErr SB_EOVERFLOW 6 /\
+  parse_varuint32 [128; 128; 128] 3 0 = VuErr SB_EPARSE 3.
+Proof. repeat split; vm_compute; reflexivity. Qed.
